@@ -37,7 +37,7 @@ def gen_text(rng):
     if c < 0.8:
         return wikigen.mutate(rng, wikigen.gen_doc(rng, depth=2))
     if c < 0.9:
-        ents = ["&amp;", "&nbsp;", "&#0;", "&#1;", "&#x10FFFF;", "&#1114111;", "&#xD800;", "&thetasym;", "&#x41;", "&#65;", "&Sigma;"]
+        ents = ["&amp;", "&nbsp;", "&#0;", "&#1;", "&#x10FFFF;", "&#1114111;", "&#xD800;", "&thetasym;", "&#x41;", "&#65;", "&Sigma;", "&apos;", "&check;", "&hookrightarrow;", "&lang;", "&rang;", "&AMP;", "&Amp;", "&ApplyFunction;"]
         return "".join(rng.choice(ents + ["a", " ", "\n", "\n\n\n", "{{t|&lt;}}"]) for _ in range(rng.randint(1, 8)))
     return wikigen.noise(rng)
 
